@@ -3,47 +3,31 @@
 From MC Require Import Bytes Encoder Types DeriveSchema DeriveEnc DeriveLen DeriveKnown DeriveFacts DeriveLenFacts DeriveClosed.
 Local Open Scope N_scope.
 
-(* For every schema the macros accept, every definition d of it and every value v the derived encoder
-   accepts: outside the classes F6 (map header sized from the declared field count) and F7 (tagged nil
-   field written as `tag null` inside an array) the derived cbor_len is exactly the number of bytes the
-   derived encoder writes.
-   Hypothesis (to be discharged with C07_types at merge time): the CborLen impl of every built-in leaf
-   type occurring in the schema (predicate okty) is exact. *)
+(* For every schema the macros accept, every definition d of it and every value v the derived encoder accepts,
+   the derived cbor_len is exactly the number of bytes the derived encoder writes (F6 and F7 are repaired: the map
+   header is sized from the entries written, the tags of nil fields inside an array are counted).
+   Hypothesis: the CborLen impl of every built-in leaf type occurring in the schema (predicate okty) is exact. *)
 Theorem C07_derived_gen : forall (okty : ty -> Prop),
   (forall t, okty t -> forall v cs, encode_ty t v = Some cs -> len_ty t v = len (flat cs)) ->
   forall Sc d v cs, schema_ok Sc = true -> schema_all okty Sc ->
-  gen_encode Sc d v = Some cs -> known_len_derived Sc d v = false ->
-  gen_len Sc d v = len (flat cs).
+  gen_encode Sc d v = Some cs -> gen_len Sc d v = len (flat cs).
 Proof. exact gen_len_exact. Qed.
 
 (* The same with the hypothesis discharged by C07_types: for every schema whose built-in leaf types are
    well-formed descriptors (leaf_ok: ty_ok, no Option directly around an Option, no bare Tag). *)
 Theorem C07_derived : forall Sc, schema_ok Sc = true -> schema_all leaf_ok Sc ->
-  forall d v cs, gen_encode Sc d v = Some cs -> known_len_derived Sc d v = false ->
-  gen_len Sc d v = len (flat cs).
+  forall d v cs, gen_encode Sc d v = Some cs -> gen_len Sc d v = len (flat cs).
 Proof. exact gen_len_exact_closed. Qed.
 
-(* F6: 24 declared Option fields under map encoding, none present: one byte written, cbor_len 2. *)
-Theorem C07_map_header_refuted :
-  schema_ok f6_schema = true /\ known_len_derived f6_schema 0 f6_value = true /\
-  exists cs, gen_encode f6_schema 0 f6_value = Some cs /\ flat cs = [160] /\ gen_len f6_schema 0 f6_value = 2.
-Proof. exact f6_refuted. Qed.
+(* the former witness of F6 — 24 declared Option fields under map encoding, none present: a0, cbor_len 1 *)
+Example C07_map_header_example : schema_ok f6_schema = true /\
+  option_map flat (gen_encode f6_schema 0 f6_value) = Some [160] /\ gen_len f6_schema 0 f6_value = 1.
+Proof. exact f6_repaired. Qed.
 
-(* F7: { #[n(0)] #[cbor(tag(5))] a: Option<u8> = None, #[n(1)] b: u8 = 1 }: 82 c5 f6 01 written, cbor_len 3. *)
-Theorem C07_tagged_nil_refuted :
-  schema_ok f7_schema = true /\ known_len_derived f7_schema 0 f7_value = true /\
-  exists cs, gen_encode f7_schema 0 f7_value = Some cs /\ flat cs = [130; 197; 246; 1] /\ gen_len f7_schema 0 f7_value = 3.
-Proof. exact f7_refuted. Qed.
-
-(* the hypotheses of C07_derived are satisfiable by a non-trivial instance: the F7 schema with the tagged
-   field present lies outside both classes *)
-Example C07_derived_example :
-  schema_ok f7_schema = true /\ known_len_derived f7_schema 0 (VList [VSome (VNat 2); VNat 1]) = false /\
-  exists cs, gen_encode f7_schema 0 (VList [VSome (VNat 2); VNat 1]) = Some cs /\ flat cs = [130; 197; 2; 1]
-             /\ gen_len f7_schema 0 (VList [VSome (VNat 2); VNat 1]) = 4.
-Proof. vm_compute. repeat split. eexists. repeat split. Qed.
+(* the former witness of F7 — { #[n(0)] #[cbor(tag(5))] a: None, #[n(1)] b: 1 }: 82 c5 f6 01, cbor_len 4 *)
+Example C07_tagged_nil_example : schema_ok f7_schema = true /\
+  option_map flat (gen_encode f7_schema 0 f7_value) = Some [130; 197; 246; 1] /\ gen_len f7_schema 0 f7_value = 4.
+Proof. exact f7_repaired. Qed.
 
 Print Assumptions C07_derived_gen.
 Print Assumptions C07_derived.
-Print Assumptions C07_map_header_refuted.
-Print Assumptions C07_tagged_nil_refuted.
